@@ -135,11 +135,14 @@ func (s *Sched) complete(w *waiter, c *chanCore, val any, ok bool) {
 // Select executes a select statement; returns the index of the fired case, -1 for default.
 func Select(hasDefault bool, cases ...Case) int {
 	s := S
-	t := s.cur
 	ks := make([]*kase, len(cases))
 	for i, c := range cases {
 		ks[i] = c.kase()
 	}
+	if !InExecution() {
+		return selectOutside(hasDefault, ks)
+	}
+	t := s.cur
 	if s.aborting {
 		s.op("select", nil, nil)
 		return -1
@@ -305,6 +308,35 @@ func describeSelect(hasDefault bool, ks []*kase) string {
 	return s + "}"
 }
 
+// selectOutside: channel operations outside of an execution (package initialisation, harness
+// code between executions): only operations that complete at once are possible.
+func selectOutside(hasDefault bool, ks []*kase) int {
+	for i, k := range ks {
+		if k.c == nil {
+			continue
+		}
+		if k.send {
+			if k.c.closed {
+				panic("send on closed channel")
+			}
+			if len(k.c.buf) < k.c.cap {
+				k.c.buf = append(k.c.buf, k.val)
+				return i
+			}
+		} else if len(k.c.buf) > 0 {
+			k.rval, k.rok, k.c.buf = k.c.buf[0], true, k.c.buf[1:]
+			return i
+		} else if k.c.closed {
+			k.rval, k.rok = nil, false
+			return i
+		}
+	}
+	if hasDefault {
+		return -1
+	}
+	panic(Divergence{"unsupported: a channel operation that would block outside of an execution (package initialisation)"})
+}
+
 // Send replaces `c <- v`.
 func (c *Chan[T]) Send(v T) { Select(false, c.SendCase(v)) }
 
@@ -326,6 +358,13 @@ func (c *Chan[T]) Close() {
 	s := S
 	if c == nil {
 		panic("close of nil channel")
+	}
+	if !InExecution() {
+		if c.c.closed {
+			panic("close of closed channel")
+		}
+		c.c.closed = true
+		return
 	}
 	t := s.cur
 	s.op(fmt.Sprintf("close ch%d", c.c.id), alwaysEnabled, func() {
